@@ -4,7 +4,10 @@ use log::{debug, error, info, warn};
 use pyo3::exceptions::{PyKeyError, PyTypeError, PyValueError};
 use pyo3::types::PyDict;
 use std::cell::RefCell;
+#[cfg(not(tyberiusprime_pypipegraph2_verif))]
 use std::collections::{HashMap, HashSet};
+#[cfg(tyberiusprime_pypipegraph2_verif)]
+use crate::verif_seam::{HashMap, HashSet, SeamNew as _};
 use std::io::Write;
 use std::path::Path;
 use std::rc::Rc;
@@ -15,6 +18,8 @@ use thiserror::Error;
 use pyo3::prelude::*;
 
 mod engine;
+#[cfg(tyberiusprime_pypipegraph2_verif)]
+pub mod verif_seam;
 #[cfg(test)]
 mod tests;
 
